@@ -2,6 +2,7 @@ package rules
 
 import (
 	"go/token"
+	"strings"
 
 	"golang.org/x/tools/go/ssa"
 
@@ -68,4 +69,38 @@ func mutationSwitchFunc(fns []*ssa.Function, min int) (*ssa.Function, []*ssa.Typ
 		}
 	}
 	return best, bestTas
+}
+
+// tableOrHelperOf: root is in the table, or it is a private helper all of whose
+// uses lie (transitively) in tabled functions.  Returns the table's reason.
+func tableOrHelperOf(P *core.Program, root *ssa.Function, table map[string]string) (string, bool) {
+	visiting := map[*ssa.Function]bool{}
+	var rec func(f *ssa.Function) (string, bool)
+	rec = func(f *ssa.Function) (string, bool) {
+		if why, ok := table[core.FuncName(f)]; ok {
+			return why, true
+		}
+		if visiting[f] {
+			return "", false
+		}
+		if obj := f.Object(); obj != nil && obj.Exported() {
+			return "", false // exported: callable from outside the table
+		}
+		visiting[f] = true
+		defer delete(visiting, f)
+		refs := P.Refs(f)
+		if len(refs) == 0 {
+			return "", false
+		}
+		why := ""
+		for _, r := range refs {
+			w, ok := rec(core.Root(r.Instr.Parent()))
+			if !ok {
+				return "", false
+			}
+			why = "helper used only by: " + strings.TrimPrefix(w, "helper used only by: ")
+		}
+		return why, true
+	}
+	return rec(root)
 }
